@@ -7,8 +7,9 @@ set -u
 ID=$1; TGT=$2; RUNS=$3; PROCS=$4
 V=$(cd "$(dirname "$0")/.." && pwd); T=$V/target
 export CARGO_NET_OFFLINE=true RUST_BACKTRACE=0
+REPO=${VERIF_REPO:-/repo}; CFG=(); if [ "$REPO" != /repo ]; then T=$V/target/alt-$(echo "$REPO" | md5sum | cut -c1-8); CFG=(--config "paths=[\"$REPO/bitar\"]"); fi
 mkdir -p $T/fuzz_stats
-(cd $V/fuzz && [ -f Cargo.lock ] || cp $V/harness/Cargo.lock .; cargo +nightly fuzz build --fuzz-dir $V/fuzz --target-dir $T/fuzz >$T/build.log.fuzz 2>&1) || { echo "BUILD FAILURE (fuzz targets)"; grep -E "^error" -A8 $T/build.log.fuzz | head -40; exit 2; }
+(cd $V/fuzz && [ -f Cargo.lock ] || cp $V/harness/Cargo.lock .; cargo +nightly fuzz build "${CFG[@]}" --fuzz-dir $V/fuzz --target-dir $T/fuzz >$T/build.log.fuzz 2>&1) || { echo "BUILD FAILURE (fuzz targets)"; grep -E "^error" -A8 $T/build.log.fuzz | head -40; exit 2; }
 BIN=$T/fuzz/x86_64-unknown-linux-gnu/release/$TGT
 W=$T/fuzzwork/$ID; rm -rf $W; mkdir -p $W
 SEED=${VERIF_SEED:-1}
@@ -16,7 +17,7 @@ t0=$(date +%s)
 for i in $(seq 1 $PROCS); do
   mkdir -p $W/corpus$i $W/art$i
   if [ "$ID" = C15 ]; then
-    n=0; for f in /repo/bitar/tests/resources/*.cba; do n=$((n+1)); (printf '\000'; head -c 1500 "$f") > $W/corpus$i/golden$n; done
+    n=0; for f in $REPO/bitar/tests/resources/*.cba; do n=$((n+1)); (printf '\000'; head -c 1500 "$f") > $W/corpus$i/golden$n; done
   fi
   ( cd $W && $BIN corpus$i -runs=$RUNS -seed=$((SEED*100+i)) -len_control=0 -max_len=3000 -artifact_prefix=art$i/ -print_final_stats=1 >log$i 2>&1; echo $? >rc$i ) &
 done
